@@ -416,6 +416,7 @@ static void mutate(int slot, const op_t *o)
                     spif_obj_t v = SPIF_MAP_GET(x, pr);
                     if (v) { SPIF_MAP_SET(x, pr, v); probe_hit("set_with_own_value"); }
                 }
+                else if (mode == 11) { SPIF_MAP_SET(x, pr, pr); probe_hit("set_key_as_its_own_value"); }      /* one object as key and as value */
                 else if (mode == 10) {
                     /* every entry updated while walking the map, under the key object the map itself stores */
                     spif_iterator_t it = SPIF_MAP_ITERATOR(x);
@@ -507,6 +508,17 @@ static void query(int slot, const op_t *o)
     }
     sh = SPIF_OBJ_SHOW(x, (spif_str_t)NULL, 1);
     if (sh) spif_str_del(sh);
+}
+
+static spif_class_t class_of_kind(int k)
+{
+    switch (k) {
+    case K_STR: return SPIF_CLASS(SPIF_STRCLASS_VAR(str)); case K_USTR: return SPIF_CLASS(SPIF_STRCLASS_VAR(ustr)); case K_MBUFF: return SPIF_CLASS(SPIF_MBUFFCLASS_VAR(mbuff));
+    case K_PAIR: return SPIF_CLASS_VAR(objpair); case K_TOK: return SPIF_CLASS_VAR(tok); case K_URL: return SPIF_CLASS_VAR(url); case K_REGEXP: return SPIF_CLASS_VAR(regexp);
+    case K_LIST_A: return SPIF_CLASS(SPIF_LISTCLASS_VAR(array)); case K_LIST_L: return SPIF_CLASS(SPIF_LISTCLASS_VAR(linked_list)); case K_LIST_D: return SPIF_CLASS(SPIF_LISTCLASS_VAR(dlinked_list));
+    case K_VEC_A: return SPIF_CLASS(SPIF_VECTORCLASS_VAR(array)); case K_VEC_L: return SPIF_CLASS(SPIF_VECTORCLASS_VAR(linked_list)); case K_VEC_D: return SPIF_CLASS(SPIF_VECTORCLASS_VAR(dlinked_list));
+    case K_MAP_A: return SPIF_CLASS(SPIF_MAPCLASS_VAR(array)); case K_MAP_L: return SPIF_CLASS(SPIF_MAPCLASS_VAR(linked_list)); default: return SPIF_CLASS(SPIF_MAPCLASS_VAR(dlinked_list));
+    }
 }
 
 /* ------------------------------------------------------------------ comparison laws (C05) */
@@ -650,6 +662,19 @@ static void exec_common(const plan_t *p)
             tr_bytes(cur.b, cur.len);
         }
         if (mode_c05) comp_laws();
+        if (mode_c05) {
+            /* type() names the object's class: the class its kind was created as, whatever constructor or history it came from */
+            for (int q = 0; q < NSLOT; q++) {
+                spif_class_t want;
+                spif_classname_t tn;
+                if (!obj[q]) continue;
+                want = class_of_kind(okind[q]);
+                if (SPIF_OBJ_CLASS(obj[q]) != want) FAIL("MISMATCH", "class", okind[q], "after %s the object in slot %d carries the class \"%s\", it was created as \"%s\"", k, q, (const char *)SPIF_OBJ_CLASS(obj[q])->classname, (const char *)want->classname);
+                tn = SPIF_OBJ_TYPE(obj[q]);
+                if (!tn || strcmp((const char *)tn, (const char *)want->classname)) FAIL("MISMATCH", "type-names-class", okind[q], "type() says \"%s\" for an object created as \"%s\"", tn ? (const char *)tn : "(null)", (const char *)want->classname);
+            }
+            probe_hit("class_checked");
+        }
         tr_u64("alloc", sa_live_digest());
     }
     R.cur_op = NULL; R.cur_op_index = p->nops;
@@ -714,7 +739,7 @@ static void gen_common(plan_t *p, rng_t *r, int c05)
         }
         if (k < 35) {
             const char *t = texts[rng_below(r, sizeof(texts) / sizeof(texts[0]))];
-            if (rng_chance(r, 1, 4)) o = plan_op(p, 0, "mut", 3, (long)s, (long)rng_below(r, 1000), (long)rng_range(r, 1, kinds[s] == K_URL ? 9 : kinds[s] == K_TOK ? 6 : IS_MAP(kinds[s]) ? 10 : 8));
+            if (rng_chance(r, 1, 4)) o = plan_op(p, 0, "mut", 3, (long)s, (long)rng_below(r, 1000), (long)rng_range(r, 1, kinds[s] == K_URL ? 9 : kinds[s] == K_TOK ? 6 : IS_MAP(kinds[s]) ? 11 : 8));
             else o = plan_op(p, 0, "mut", 2, (long)s, (long)rng_below(r, 1000));
             if (kinds[s] == K_MBUFF && rng_chance(r, 1, 3)) { static const char bin[] = "a\0b\xff\x80\0\0z"; op_str(o, bin, 1 + rng_below(r, 8)); }       /* bytes a C string cannot hold */
             else op_str(o, t, strlen(t));
